@@ -249,7 +249,7 @@ VEC_MEMBERS = {'size', 'data', 'empty', 'push_back', 'emplace_back', 'reserve', 
                'begin', 'end', 'cbegin', 'cend', 'back', 'front', 'operator[]', 'at'}
 STR_MEMBERS = {'length', 'size', 'assign', 'empty', 'data', 'c_str', 'begin', 'end', 'operator[]'}
 OPT_MEMBERS = {'value_or', 'has_value', 'value', 'operator bool', 'operator*', 'operator->', 'reset'}
-MAYTHROW_MODELS = {'vec_ctor_n', 'vec_reserve', 'vec_resize', 'opt_value', 'vec_at'}
+MAYTHROW_MODELS = {'vec_ctor_n', 'vec_reserve', 'vec_resize', 'vec_resize_val', 'opt_value', 'vec_at'}
 
 
 class _NoContracts:
@@ -1309,8 +1309,11 @@ class FnTranslator:
                 self.after_call(True)
                 return tn
             real_args = [a for a in args if a.get('kind') != 'CXXDefaultArgExpr']
-            if len(real_args) == 2 and strip_ref(self.T(real_args[0]))[0] == 'int' and not is_owning(ct[1], self.P_records()):
-                # vector(n, value)
+            if len(real_args) == 2 and strip_ref(self.T(real_args[0]))[0] == 'int':
+                # vector(n, value); elements that own storage share the value's storage (nothing in the model mutates string
+                # storage in place, assignments replace it)
+                if is_owning(ct[1], self.P_records()):
+                    self.hit('vector(n, value) of owning elements: shared storage')
                 self.U.need_model('vec', ct)
                 tn = self.tmp()
                 self.pre.append('%s = vec_%s_ctor_n_val(%s, %s);' % (self.decl(ct, tn), tag(ct[1]), self.ex(real_args[0]), self.rvalue_for(real_args[1], ct[1])))
@@ -1608,6 +1611,8 @@ class FnTranslator:
             return self.accumulate(args, n)
         if name == 'find_if':
             return self.find_if(args, n)
+        if name == 'transform' and len(args) == 4:
+            return self.transform(args, n)
         if name == 'tie':
             raise Unsupported('std::tie outside an assignment')
         if name in ('inflateInit_', 'inflate', 'inflateEnd', 'deflateInit_', 'deflate', 'deflateEnd'):
@@ -1682,6 +1687,8 @@ class FnTranslator:
                 return c['inner'][1]
             raise Unsupported('iterator range start/end is not container.begin()/end()')
         a = cont_of(first, ('begin', 'cbegin'))
+        if last is None:
+            return a
         b = cont_of(last, ('end', 'cend'))
         if self._strip_ids(a) != self._strip_ids(b):
             raise Unsupported('begin()/end() of different containers')
@@ -1711,6 +1718,32 @@ class FnTranslator:
         self.pre.append('for (; %s < %s->size; ++%s) /* loop %d */ %s { if (%s(%s)) break; }' % (
             idx, a, idx, k, ' '.join(x.replace('\\idx', idx).replace('\\range', a) for x in annot), fn, ', '.join([arg] + caps)))
         return '(%s->data + %s)' % (a, idx)
+
+    def transform(self, args, n):
+        """std::transform(c.begin(), c.end(), d.begin(), lambda): a loop applying the lifted real lambda to each element of c in
+        order and assigning the result through the output iterator, which must stay inside d (obligation per element)."""
+        first, last, dfirst, op = args
+        lam = self._find(op, 'LambdaExpr')
+        if lam is None:
+            raise Unsupported('std::transform without a lambda')
+        cont = self._range_container(first, last)
+        dcont = self._range_container(dfirst, None)
+        ct, dt = strip_ref(self.T(cont)), strip_ref(self.T(dcont))
+        if ct[0] != 'vec' or dt[0] != 'vec':
+            raise Unsupported('transform over %r into %r' % (ct, dt))
+        a, d = self.addr(cont), self.addr(dcont)
+        fn, caps = self.lambda_fn(lam, None)
+        lp = self.U.lambda_params(fn)
+        if strip_ref(lp[0]) != ct[1]:
+            raise Unsupported('transform lambda parameter %r over elements %r' % (lp[0], ct[1]))
+        idx = self.tmp('k')
+        k, annot = self.loop_annot(n)
+        arg = ('&%s->data[%s]' if lp[0][0] == 'ref' else '%s->data[%s]') % (a, idx)
+        self.pre.append('size_t %s = 0;' % idx)
+        self.pre.append('for (; %s < %s->size; ++%s) /* loop %d */ %s { VERIF_ASSERT(%s < %s->size, "check: output iterator in range"); %s->data[%s] = %s(%s); }' % (
+            idx, a, idx, k, ' '.join(x.replace('\\idx', idx).replace('\\range', a) for x in annot), idx, d, d, idx, fn, ', '.join([arg] + caps)))
+        self.hit('std::transform(model loop over the lifted lambda)')
+        return '(%s->data + %s)' % (d, idx)
 
     def e_LambdaExpr(self, n):
         raise Unsupported('lambda used as a value in %s' % self.key)
@@ -1777,6 +1810,13 @@ class FnTranslator:
                 self.U.need_model('check')
                 p = 'vec_%s_%s(%s)' % (tg, name, o)
                 return p if want_ptr else '(*%s)' % p
+            if name == 'resize' and len([x for x in args if x.get('kind') != 'CXXDefaultArgExpr']) == 2:
+                # resize(n, value): appended elements are copies of value (elements that own storage share the value's
+                # storage: nothing in the model mutates string storage in place)
+                self.hit('vector::resize(n, value)')
+                self.pre.append('vec_%s_resize_val(%s, %s, %s);' % (tg, o, self.ex(args[0]), self.rvalue_for(args[1], et)))
+                self.after_call(True)
+                return ''
             if name in ('reserve', 'resize'):
                 self.pre.append('vec_%s_%s(%s, %s);' % (tg, name, o, self.ex(args[0])))
                 self.after_call(True)
